@@ -316,6 +316,9 @@ func (e *FuncEnc) contractCall(in ssa.Instruction, f *ssa.Function, c *Contract,
 			continue
 		}
 		e.obligeKeep("call:"+f.Name(), "requires:"+cl.Name, fml, in.Pos())
+		if n := len(e.Obls); n > 0 && e.Obls[n-1].Class == "call:"+f.Name() {
+			e.Obls[n-1].Callee, e.Obls[n-1].Clause = c.Name, cl.Name
+		}
 	}
 	if c.PreHook != nil {
 		for _, nf := range c.PreHook(e, args) {
